@@ -112,6 +112,11 @@ DefCases == {
                    Asrt(Q("forall", <<<<"n", SInt>>>>, Ap("=>", <<Ap("ge0", <<A("n")>>), Ap("ge0", <<SPlus(A("n"), x)>>)>>)))>>,
        "accept", "define-used-under-binder"),
   Case(Prelude \o <<DefFun("dx", <<>>, SInt, x), Asrt(Q("forall", <<<<"x", SInt>>>>, Ap(">=", <<A("dx"), x>>)))>>, "accept", "define-0ary-under-binder-capture"),
+  \* a binder whose name is declared with ANOTHER sort, next to declared symbols named like the renamed binder (x0, x1)
+  Case(Prelude \o <<DeclFun("x0", <<>>, SBool), Asrt(Q("forall", <<<<"x", SBool>>>>, Ap("or", <<x, A("x0")>>)))>>, "accept", "binder-other-sort-suffixed-global"),
+  Case(Prelude \o <<DeclFun("x0", <<>>, SBool), DeclFun("x1", <<>>, SBool),
+                    Asrt(Q("exists", <<<<"x", SBool>>>>, Ap("and", <<Ap("not", <<x>>), A("x0"), Ap("not", <<A("x1")>>)>>)))>>, "accept", "binder-other-sort-two-suffixed-globals"),
+  Case(Prelude \o <<DeclFun("p0", <<>>, SInt), Asrt(Q("forall", <<<<"p", SInt>>>>, Lt(p, SPlus(A("p0"), Nm(1)))))>>, "accept", "binder-int-over-bool-global"),
   Case(Prelude \o <<DefFun("le", <<<<"m", SInt>>>>, SBool, Ap("<=", <<A("m"), x>>)), Asrt(Q("exists", <<<<"x", SInt>>>>, Ap("le", <<x>>)))>>,
        "accept", "define-body-global-vs-binder-capture"),
   Case(Prelude \o <<DefFun("dd", <<>>, SInt, Nm(5)), Asrt(Let(<<<<"dd", Nm(1)>>>>, Eq(A("dd"), x)))>>, "accept", "define-name-shadowed-by-let"),
